@@ -33,7 +33,11 @@
 (*   cfgpre : the resource configuration adds a task_pre_exec command       *)
 (*   prof   : profiling enabled (RP_PROF_TGT)                               *)
 (*   out, err : "default" | "rel" | "abs": td.stdout / td.stderr unset, a  *)
-(*            relative name, an absolute path - independently of each other *)
+(*            relative name, an absolute path - independently of each other; *)
+(*            err = "same": td.stderr names the same file as td.stdout       *)
+(*   wr     : what the executable writes: "out" | "err" | "both" streams     *)
+(*   sv, sval : a stale rank variable of another launcher layer in every     *)
+(*            rank's environment (sv = "none": there is none)                *)
 (***************************************************************************)
 EXTENDS Integers, Sequences, FiniteSets
 
@@ -107,12 +111,20 @@ FileOf(kind, stream) ==
   [dir  |-> IF kind = "abs" THEN "as-given" ELSE "sandbox",
    name |-> IF kind = "default" THEN "uid." \o stream ELSE "custom"]
 
+\* td.stderr = td.stdout: both streams are described to go to the one file
+ErrFile(c) == IF c.err = "same" THEN FileOf(c.out, "out") ELSE FileOf(c.err, "err")
+\* which of the texts the executable writes (c.wr: "out" | "err" | "both") must be
+\* found in the described file: all of it.  With one file for both streams the
+\* file is opened once and shared (") 1> f 2>&1": one offset), so the complete
+\* lines of both streams of every rank are all there, in some interleaving
+Demand(c) == [out |-> c.wr \in {"out", "both"}, err |-> c.wr \in {"err", "both"}]
+
 \* the launch script around it
 LaunchRun(c, F, xrc) ==
   LET prel == RunCmds("pre_launch", GSeq(c.prel), 1, L, F) IN
   IF prel.failed
   THEN [ran |-> prel.ran, launched |-> FALSE, code |-> FailCode, why |-> "pre",
-        ranks |-> <<>>, ctrl |-> {}, out |-> FileOf(c.out, "out"), err |-> FileOf(c.err, "err")]
+        ranks |-> <<>>, ctrl |-> {}, out |-> FileOf(c.out, "out"), err |-> ErrFile(c)]
   ELSE LET rr    == [i \in 1 .. c.ranks |-> RankRun(c, i - 1, F, xrc)]
            lret  == LauncherRet([i \in 1 .. c.ranks |-> rr[i].code])
            postl == RunCmds("post_launch", GSeq(c.postl), 1, L, F)
@@ -125,7 +137,7 @@ LaunchRun(c, F, xrc) ==
             ranks    |-> rr,
             ctrl     |-> IF c.sto THEN {0} ELSE {},
             out      |-> FileOf(c.out, "out"),
-            err      |-> FileOf(c.err, "err")]
+            err      |-> ErrFile(c)]
 
 \* environment keys: where the value the executable sees comes from.  Reference:
 \* the named environment is activated first, the described variables are
@@ -153,14 +165,32 @@ Native(fl) ==
     [] fl = "pals"     -> {"PALS_RANKID"}
     [] fl = "unknown"  -> {"MPI_RANK"}
     [] OTHER           -> {}
-Reads(det) ==
-  {"MPI_RANK", "PMIX_RANK"}
-  \cup (IF det = "hydra" THEN {"PMI_ID", "PMI_RANK"} ELSE {})
-  \cup (IF det = "pals"  THEN {"PALS_RANKID"} ELSE {})
-\* RP_RANK as the exec script of rank r ends up with (-1: unset); reference: det = fl
-RankIdOf(c, r, det) ==
-  IF c.lm = "fork" THEN 0
-  ELSE IF Native(c.fl) \cap Reads(det) # {} THEN r ELSE -1
+\* the rank-id lines of the exec script, "test -z $X || export RP_RANK=$X" one
+\* after the other (the last variable that is set wins): the generic variables
+\* first, then the ones of the detected flavor - so the flavor's own variable
+\* wins over a stale generic one
+ReadOrder(det, genericLast) ==
+  LET gen  == <<"MPI_RANK", "PMIX_RANK">>
+      spec == IF det = "hydra" THEN <<"PMI_ID", "PMI_RANK">>
+              ELSE IF det = "pals" THEN <<"PALS_RANKID">> ELSE <<>>
+  IN  IF genericLast THEN spec \o gen ELSE gen \o spec
+\* what rank r finds in variable v: the launcher's own announcement, else a stale
+\* value inherited from another launcher layer (c.sv = c.sval in every rank), else
+\* nothing (-1)
+EnvRank(c, r, v) ==
+  IF v \in Native(c.fl) THEN r ELSE IF v = c.sv THEN c.sval ELSE -1
+RECURSIVE LastSet(_, _, _, _)
+LastSet(c, r, order, i) ==
+  IF i = 0 THEN -1
+  ELSE IF EnvRank(c, r, order[i]) # -1 THEN EnvRank(c, r, order[i])
+  ELSE LastSet(c, r, order, i - 1)
+\* RP_RANK as the exec script of rank r ends up with (-1: unset)
+RankIdOf(c, r, order) ==
+  IF c.lm = "fork" THEN 0 ELSE LastSet(c, r, order, Len(order))
+\* for a launcher of unknown flavor the generic variables are all the script can
+\* go by: a stale PMIX_RANK beats the MPI_RANK such a launcher announces (excluded
+\* from the checked domain, stated as a limit)
+Decidable(c) == ~(c.fl = "unknown" /\ c.sv = "PMIX_RANK")
 
 \* GPU ids in rank r's slot: whole GPUs are exclusive, shares of a GPU are packed
 \* (two halves / four quarters on one GPU)
